@@ -1281,27 +1281,33 @@ func (m *Machine) convInt(i Int, from, to types.Type) Val {
 		v := wrapConst(i.Lo, from)
 		return K(wrapConst(v, to))
 	}
+	tname := func() string {
+		if i.Name == "" {
+			return ""
+		}
+		return types.TypeString(to.Underlying(), nil) + "(" + i.Name + ")"
+	}
 	bits, signed, _ := typeBits(to)
+	fb, fs, fok := typeBits(from)
 	if i.Top {
-		fb, fs, fok := typeBits(from)
-		if fok && fb < bits && (!fs || signed) || fok && fb == bits && fs == signed {
+		if fok && (fb < bits && (!fs || signed) || fb == bits && fs == signed) {
 			return Int{Top: true, Name: i.Name}
 		}
 		lo, hi, ok := typeRange(to)
 		if ok {
-			return Int{Lo: lo, Hi: hi}
+			return Int{Lo: lo, Hi: hi, Name: tname()}
 		}
-		return Int{Top: true}
+		return Int{Top: true, Name: tname()}
 	}
 	if bits == 64 {
 		if signed || i.Lo >= 0 {
 			return i
 		}
-		return Int{Top: true}
+		return Int{Top: true, Name: tname()}
 	}
 	lo, hi, _ := typeRange(to)
 	if i.Lo >= lo && i.Hi <= hi {
 		return i
 	}
-	return Int{Lo: lo, Hi: hi}
+	return Int{Lo: lo, Hi: hi, Name: tname()}
 }
